@@ -72,14 +72,6 @@ Definition run_0201 (input impl : sx) : sx :=
   | _ => v_malformed
   end.
 
-(* identity key of the specification: type+permissions (mode), uid, gid, link target,
-   device numbers and, for non-directories, size and mtime *)
-Definition identity_key (s : stat) : list N * bytes :=
-  ([st_mode s; st_uid s; st_gid s; st_devmajor s; st_devminor s;
-    if st_is_dir s then 0 else st_size s; if st_is_dir s then 0 else st_mtime s], st_linkname s).
-Definition key_eqb (a b : list N * bytes) : bool :=
-  bytes_eqb (fst a) (fst b) && bytes_eqb (snd a) (snd b).
-
 (* kind 0202: input = (differ statA statB); impl = (#bool) from the real sameFile (hook
    VerifSameFile).  Model: same_file.  Oracle: equality of the identity keys (DiffNone:
    never the same). *)
